@@ -2,6 +2,8 @@
    extracted model on input and prints "MISMATCH <line-index> <model output>" for
    every line whose observed value differs, then "DONE <n> <mismatches>". *)
 open Xvcore
+module String = Stdlib.String
+module List = Stdlib.List
 
 let z_of_int (i : int) : z =
   (* build from decimal digits with extracted arithmetic: no OCaml-int limits *)
@@ -9,7 +11,7 @@ let z_of_int (i : int) : z =
   if i = 0 then Z0 else if i > 0 then Zpos (pos_of i) else Zneg (pos_of (-i))
 
 let ten = z_of_int 10
-let z_of_dec (s : string) : z =
+let z_of_dec (s : Stdlib.String.t) : z =
   let neg = String.length s > 0 && s.[0] = '-' in
   let acc = ref Z0 in
   String.iteri (fun i c -> if not (neg && i = 0) then
@@ -19,7 +21,7 @@ let z_of_dec (s : string) : z =
 let n_of_int i = Z.to_N (z_of_int i)
 
 (* grammar: '(' items ')' | -?digits | x<hex bytes> | u<dec>.<dec>... *)
-let parse (s : string) : sx =
+let parse (s : Stdlib.String.t) : sx =
   let n = String.length s in
   let pos = ref 0 in
   let rec item () : sx =
@@ -54,7 +56,7 @@ let parse (s : string) : sx =
 
 let rec int_of_pos = function XH -> 1 | XO p -> 2 * int_of_pos p | XI p -> 2 * int_of_pos p + 1
 (* decimal printing of arbitrary Z through extracted div/mod *)
-let string_of_z (z : z) : string =
+let string_of_z (z : z) : Stdlib.String.t =
   let rec go z acc =
     match z with
     | Z0 -> acc
